@@ -5,6 +5,7 @@ Writes /root/benign_results.json."""
 import json, os, re, subprocess, sys, glob
 W = "/tmp/wt/vb"
 B = subprocess.run("git -C /tmp/wt/fix rev-parse HEAD", shell=True, capture_output=True, text=True).stdout.strip()
+CODE = os.environ.get("XSA_CODE", "/verif")  # where the checkers are run from (a frozen copy during long evaluations)
 def sh(c, cwd=None, env=None): return subprocess.run(c, shell=True, cwd=cwd, capture_output=True, text=True, env=env)
 if not os.path.isdir(W): sh(f"git -C /repo worktree add --detach {W} {B}")
 sh(f"git checkout -q -- . && git checkout -q --detach {B}", cwd=W)
@@ -20,7 +21,7 @@ for c in props:
         if r.returncode != 0:
             res[name] = {"applies": False}; print(name, "DOES NOT APPLY"); continue
         out = f"/tmp/benign_all_{os.getpid()}.json"
-        sh(f"/verif/tools/runall.py --root {W}", cwd="/verif", env=dict(os.environ, XSA_RUNALL_OUT=out))
+        sh(f"{CODE}/tools/runall.py --root {W}", cwd=CODE, env=dict(os.environ, XSA_RUNALL_OUT=out))
         s = json.load(open(out)); os.remove(out)
         sh("git checkout -q -- . && git clean -fdq", cwd=W)
         bad = {p: v for p, v in s.items() if v["rc"] != 0}
